@@ -11,6 +11,8 @@ sys.path.insert(0, 'tools')
 import lv
 ok, msg = lv.build_model()
 print('model build:', ok, msg[-2000:])
+import k4_lexmodel
+print('lexer model build:', k4_lexmodel.build())
 t = lv.build_impl(bins=True)
 print('impl build: %.1fs' % t)
 sys.exit(0 if ok else 1)
